@@ -52,7 +52,7 @@ def strategy():
                 "path": draw(st.sampled_from([b"/bin/true", b"/x", b"/usr/bin/" + b"n" * 40])), "argv": argv}
 
     NONDEFAULT = {
-        b"output": [b"file:@OUT@/log", b"stdout", b"socket:@OUT@/sock", b"devnull", b"stderr", b"syslog", b"syslog"],
+        b"output": [b"file:@OUT@/log", b"stdout", b"socket:@OUT@/sock", b"devnull", b"stderr", b"syslog", b"syslog", b"file:/dev/full"],
         b"message_format": [b"F1 %{cmdline}", b"%{filename}|%{uid}"],
         b"filter_chain": [b"only_uid:4242", b"exclude_uid:0"],
         b"error_logging": [b"yes"],
@@ -318,6 +318,11 @@ FIXED = [
     # the C library's own syslog state (tag, facility, options) between two calls that both use output = syslog
     {"steps": [_cf([(b"output", b"syslog"), (b"syslog_facility", b"LOCAL5"), (b"syslog_ident", b"first-ident")]), _SHORT,
                _cf([(b"output", b"syslog"), (b"syslog_ident", b"")]), _SHORT, _cf([(b"output", b"syslog")]), _SHORT]},
+    # a sink that refuses every record (ENOSPC from /dev/full, a directory, a missing directory), then a working file output
+    {"steps": [_cf([(b"output", b"file:/dev/full")]), _SHORT, _LONG, _cf([(b"output", b"file:@OUT@/log")]), _SHORT, _SHORT,
+               _cf([(b"output", b"file:/dev/full")]), _SHORT, _cf([(b"output", b"file:@OUT@/log-x-0")]), _LONG]},
+    {"steps": [_cf([(b"output", b"file:@OUT@")]), _SHORT, _cf([(b"output", b"file:@OUT@/log")]), _SHORT,
+               _cf([(b"output", b"file:@OUT@/nodir/log")]), _SHORT, _cf([(b"output", b"file:@OUT@/log")]), _SHORT]},
     {"steps": [_cf([(b"output", b"syslog"), (b"syslog_facility", b"LOCAL3"), (b"syslog_level", b"ERR")]), _SHORT,
                _cf([(b"output", b"syslog"), (b"syslog_facility", b"KERN")]), _SHORT, _cf([(b"output", b"devlog"), (b"syslog_facility", b"KERN")]), _SHORT]},
 ]
